@@ -65,3 +65,7 @@ mod tests {
         Ok(())
     }
 }
+
+#[cfg(kani)]
+#[path = "/verif/harness/gtf/writer_value.rs"]
+mod verif_kani;
